@@ -70,6 +70,10 @@ class Scenario:
     def gossip(self):
         if self.nn > 1:
             self.emit("gossip", {})
+            if self.rng.random() < 0.25:
+                # a push/pull exchange re-delivers everything one node knows: on a converged cluster it changes nothing
+                a, b = self.rng.sample(range(self.nn), 2)
+                self.emit(f"sync {a} {b}", {}, "push-pull-changed-something")
         self.dirty = False
 
     def alive(self):
@@ -345,7 +349,8 @@ def run_scenarios(c, name, scenarios, samples, extra_stats=None):
 def add_c01_suites(c, samples):
     rng = c.rng
     n = 12 if c.tier == "quick" else 150
-    scs = [gen_converged(rng, rng.choice([1, 1, 2]), 1, rng.choice([12, 20]), {"pub": 8, "sub": 5, "unsub": 2}) for _ in range(n)]
+    scs = corpus(rng, ["broken-recipient"])
+    scs += [gen_converged(rng, rng.choice([1, 1, 2]), 1, rng.choice([12, 20]), {"pub": 8, "sub": 5, "unsub": 2}) for _ in range(n)]
     run_scenarios(c, "broker-publish-routing", scs, samples)
 
 
@@ -510,7 +515,10 @@ def gen_lifecycle(rng, nn, mounts=1, takeover=0.25, fine_gossip=False):
     every change (oracle applies) or delivered link by link in random order (model comparison only)"""
     sc = Scenario(rng, nn, mounts)
     cids = {}
+    opaque = False
     for _ in range(rng.choice([6, 10, 16])):
+        if opaque:
+            break
         r = rng.random()
         alive = sc.alive()
         if r < 0.25 or not alive:
@@ -580,6 +588,10 @@ def gen_lifecycle(rng, nn, mounts=1, takeover=0.25, fine_gossip=False):
                 sc.clients[c]["alive"] = False
                 sc.ops.append(f"{how} {c}")
                 v_ = sc.clients[c]
+                if how == "drop" and v_["will"] and v_.get("displaced"):
+                    # whether a displaced session's will is published depends on whether its displacer's record is
+                    # still there: the oracle stays out of it (the model comparison does not)
+                    opaque = True
                 if how == "drop" and v_["will"] and v_["will"][3] and not v_.get("displaced"):
                     sc.retained[(v_["mount"], v_["will"][0])] = (v_["will"][1], v_["will"][2], 0)
                 for x in sc.alive():
@@ -610,7 +622,7 @@ def gen_lifecycle(rng, nn, mounts=1, takeover=0.25, fine_gossip=False):
             sc.ops.append(f"ping {c}")
     if nn > 1:
         sc.ops.append("gossip")
-    if not fine_gossip:
+    if not fine_gossip and not opaque:
         sc.check_state()
     else:
         for n in range(nn):
@@ -630,7 +642,7 @@ def gen_timing(rng, nn=None):
     def new_client():
         if len(sc.clients) >= 7:
             return
-        ka = rng.choice([1, 1, 2, 3, 5])
+        ka = rng.choice([1, 1, 2, 3, 5, 32767, 32768, 65535])
         c = sc.connect(keepalive=ka, will=(f"w/{sc.k + 1}", rng.choice(["6279", "00"]), rng.choice([0, 1]), 0))
         names.append(c)
         if rng.random() < 0.5:
@@ -659,8 +671,11 @@ def gen_timing(rng, nn=None):
         else:
             sc.check_state()
     # everybody falls silent for good
-    while any(sc.clients[c]["alive"] for c in names) or sc.handshakes:
+    while any(sc.clients[c]["alive"] and sc.clients[c]["ka"] < 1000 for c in names) or sc.handshakes:
         sc.elapse(10300)
+    for c in names:
+        if sc.clients[c]["alive"]:
+            sc.emit(f"ping {c}", {c: ["pingresp"]}, "healthy-session-ended")
     sc.check_state()
     return sc
 
@@ -704,19 +719,21 @@ def add_timing_suites(c, samples):
         run_scenarios(c, "keep-alive-wall-clock", [sc], samples)
 
 
-def gen_nodefail(rng, clean):
+def gen_nodefail(rng, clean, mounts=None):
     """a session with a will on node 1, watchers on node 0 (and 2); the session ends cleanly or stays; then node 1 fails"""
     nn = rng.choice([2, 3])
-    sc = Scenario(rng, nn, rng.choice([1, 2]))
+    sc = Scenario(rng, nn, mounts or rng.choice([1, 2]))
     wt = rng.choice(["w/t", "w//t", "/w", "w/t/"])
     watchers = []
     for n in [0] + ([2] if nn == 3 else []):
         for m in sc.mounts:
             w = sc.connect(node=n, mount=m)
-            sc.sub(w, [(rng.choice(["#", wt if wt else "#", "+/+", "w/#"]), rng.choice([0, 1]))])
+            sc.sub(w, [("#" if mounts else rng.choice(["#", wt if wt else "#", "+/+", "w/#"]), rng.choice([0, 1]))])
             watchers.append(w)
     dying = sc.connect(node=1, mount=sc.mounts[0], will=(wt, rng.choice(["6279", "00"]), rng.choice([0, 1]), 0))
-    other = sc.connect(node=1, mount=sc.mounts[-1], will=None)
+    # a second session on the failing node, in the LAST mount point, with a will of its own when that is another tenant
+    owill = (wt, "6f74", rng.choice([0, 1]), 0) if len(sc.mounts) > 1 else None
+    other = sc.connect(node=1, mount=sc.mounts[-1], will=owill)
     sc.sub(dying, [("x", 1)])
     if clean:
         sc.end(dying, "disconnect")
@@ -734,6 +751,14 @@ def gen_nodefail(rng, clean):
             for f, q in wv["subs"].items():
                 if mqtt_match(f.split("/"), wt.split("/")):
                     exp.setdefault(w, []).append(pubstr(wt, v["will"][1], q, 0, 0))
+    if owill:
+        for w in watchers:
+            wv = sc.clients[w]
+            if wv["mount"] != sc.clients[other]["mount"]:
+                continue
+            for f, q in wv["subs"].items():
+                if mqtt_match(f.split("/"), wt.split("/")):
+                    exp.setdefault(w, []).append(pubstr(wt, owill[1], q, 0, 0))
     for c_, cv in sc.clients.items():
         if cv["node"] == 1:
             cv["alive"] = False
@@ -832,7 +857,7 @@ def add_nodefail_suites(c, samples):
     n = 2 if c.tier == "quick" else 16
     scs = []
     for k in range(n):
-        scs.append(gen_nodefail(c.rng, clean=(k % 2 == 1)))
+        scs.append(gen_nodefail(c.rng, clean=(k % 2 == 1), mounts=2 if k % 4 == 0 else None))
     for k in range(1 if c.tier == "quick" else 6):
         for v in ("sub-only", "takeover", "late-joiner"):
             scs.append(gen_nodefail_partial_knowledge(c.rng, v))
@@ -1125,8 +1150,117 @@ def corpus_setup_workers_survive_panics(rng):
     return sc
 
 
+def corpus_broken_recipient_does_not_stop_fanout(rng):
+    """the connection of one recipient is broken (writes fail) but the broker has not noticed yet: every OTHER matching
+    session still gets the message, whichever position the broken one has in the fan-out"""
+    sc = Scenario(rng, 1, 1)
+    p = sc.connect(node=0)
+    subs = [sc.connect(node=0) for _ in range(4)]
+    for k, s_ in enumerate(subs):
+        sc.sub(s_, [("t", 0 if k < 3 else 1)])
+    for victim in subs[:3]:
+        sc.ops.append(f"mute {victim} 1")
+        sc.mid += 1
+        exp = {p: [f"puback({sc.mid})"]}
+        for s_ in subs:
+            if s_ != victim:
+                exp[s_] = [pubstr("t", "0a", sc.clients[s_]["subs"]["t"], 0, 0)]
+        sc.emit(f"pub {p} t 0a 1 0 0 {sc.mid}", exp, "delivery")
+        sc.ops.append(f"ackall {subs[3]}")
+        sc.ops.append(f"mute {victim} 0")
+    return sc
+
+
+def corpus_late_pubrel_after_timeout(rng):
+    """a QoS 2 publisher releases its message only after the broker gave the handshake up: the message was never stored, so
+    it must not be acknowledged (PUBCOMP) — the client will send it again"""
+    sc = Scenario(rng, 1, 1)
+    p = sc.connect(node=0)
+    s_ = sc.connect(node=0)
+    sc.sub(s_, [("t", 0)])
+    sc.emit(f"pub {p} t 0a 2 0 0 7", {p: ["pubrec(7)"]}, "qos2-forwarded-early")
+    sc.emit("expire 0", {}, "qos2-forwarded-on-timeout")
+    sc.emit(f"rawack {p} pubrel 7", {}, "acked-publish-not-delivered")
+    sc.emit(f"pub {p} t 0a 2 0 1 7", {p: ["pubrec(7)"]}, "qos2-forwarded-early")
+    sc.emit(f"rawack {p} pubrel 7", {p: ["pubcomp(7)"], s_: [pubstr("t", "0a", 0, 0, 1)]}, "delivery")
+    return sc
+
+
+def corpus_takeover_with_unacked_delivery(rng):
+    """a session with an unacknowledged delivery is displaced by a newer one with its client id and then ends: it leaves
+    the registry, nothing is retransmitted to it, its identifier is free again"""
+    sc = Scenario(rng, 1, 1)
+    p = sc.connect(node=0)
+    a = sc.connect(node=0, cid="idX")
+    sc.sub(a, [("t", 1)])
+    sc.ops.append("setpool 0 1 2")
+    sc.mid += 1
+    sc.emit(f"pub {p} t 0a 1 0 0 {sc.mid}", {p: [f"puback({sc.mid})"], a: [pubstr("t", "0a", 1, 0, 0)]}, "delivery")
+    b = sc.connect(node=0, cid="idX")
+    sc.clients[a]["alive"] = False
+    sc.emit(f"ping {a}", {a: ["CLOSED"]}, "displaced-session-still-served")
+    sc.check_state()
+    sc.emit("expire 0", {}, "retransmission-to-ended-session")
+    sc.emit("expire 0", {}, "retransmission-to-ended-session")
+    sc.ops.append("pool 0")
+    for k in range(3):
+        sc.sub(b, [("t", 1)]) if k == 0 else None
+        sc.mid += 1
+        sc.emit(f"pub {p} t 0{k} 1 0 0 {sc.mid}", {p: [f"puback({sc.mid})"], b: [pubstr("t", f"0{k}", 1, 0, 0)]}, "delivery-with-free-identifiers")
+        sc.ops.append(f"ackall {b}")
+    sc.ops.append("pool 0")
+    return sc
+
+
+def corpus_takeover_then_stale_snapshot(rng):
+    """X connects on node 0 and node 1 learns of it; X re-connects on node 1; before node 0 hears of that it pushes its
+    full state to node 1 (the old record once more): node 1 keeps resolving X to the new session only"""
+    sc = Scenario(rng, 2, 1)
+    sc.ops.append("connect c1 0 idX mp 60 -")
+    sc.ops.append("bc 0 1")
+    sc.ops.append("connect c2 1 idX mp 60 -")
+    sc.ops.append("sync 0 1")
+    sc.ops.append("bycid 1 mp idX")
+    sc.exp[len(sc.ops) - 1] = ("Sc2", "client-id-resolves-to-displaced-session")
+    sc.ops.append("state 1")
+    sc.exp[len(sc.ops) - 1] = ("[S,Sc2,idX,mp,2,-] [] [] [Sc2]", "displaced-session-still-listed")
+    sc.ops.append("ping c2")
+    sc.exp[len(sc.ops) - 1] = ({"c2": ["pingresp"]}, "healthy-session-ended")
+    sc.ops.append("gossip")
+    sc.ops.append("ping c1")
+    sc.exp[len(sc.ops) - 1] = ({"c1": ["CLOSED"]}, "displaced-session-still-served")
+    sc.ops.append("gossip")
+    sc.ops.append("state 0")
+    sc.exp[len(sc.ops) - 1] = ("[S,Sc2,idX,mp,2,-] [] [] []", "displaced-session-still-listed")
+    return sc
+
+
+def corpus_split_length_field_among_many(rng):
+    """a well-behaved client's 215-byte QoS 1 PUBLISH arrives in two segments cut inside its remaining-length field while
+    more clients than there are set-up workers connect and publish in between: the subscriber gets all 200 payload bytes"""
+    sc = Scenario(rng, 1, 1)
+    w1 = sc.connect(node=0)
+    sc.sub(w1, [("big", 0), ("wit", 0)])
+    v = sc.connect(node=0)
+    payload = bytes((7 * k + 1) % 256 for k in range(200))
+    body = b"\x00\x03big" + b"\x00\x09" + payload
+    pkt = bytes([0x32]) + bytes([len(body) % 128 | 128, len(body) // 128]) + body
+    sc.emit(f"raw {v} {pkt[:2].hex()}", {}, "partial-packet")
+    for k in range(30):
+        o = sc.connect(node=0)
+        sc.mid += 1
+        sc.emit(f"pub {o} wit {'%02x' % k} 0 0 0 {sc.mid}", {w1: [pubstr("wit", "%02x" % k, 0, 0, 0)]}, "witness-stalled")
+    sc.emit(f"raw {v} {pkt[2:].hex()}", {v: ["puback(9)"], w1: [pubstr("big", payload.hex(), 0, 0, 0)]}, "bystander-stream-corrupted")
+    return sc
+
+
 def corpus(rng, names):
-    table = {"setup-workers-survive-panics": corpus_setup_workers_survive_panics,
+    table = {"broken-recipient": corpus_broken_recipient_does_not_stop_fanout,
+             "late-pubrel-after-timeout": corpus_late_pubrel_after_timeout,
+             "takeover-with-unacked-delivery": corpus_takeover_with_unacked_delivery,
+             "takeover-then-stale-snapshot": corpus_takeover_then_stale_snapshot,
+             "split-length-field-among-many": corpus_split_length_field_among_many,
+             "setup-workers-survive-panics": corpus_setup_workers_survive_panics,
              "same-client-id-overlapping-qos2": corpus_same_client_id_overlapping_qos2,
              "clear-before-publish-arrives": corpus_clear_before_publish_arrives,
              "ids-return-after-recipient-vanished": corpus_ids_return_after_recipient_vanished,
